@@ -117,6 +117,7 @@ def run(ctx):
     check_argument_scan(ctx, gfns)
     check_edge_selection(ctx, gfns)
     check_package_closure(ctx, gfns)
+    check_unregister_complete(ctx)
     import c01, engine
     c01.dependency_edges(engine.AliasCtx(ctx, {"R01.6": "R06.11"}))
 
@@ -486,6 +487,21 @@ def check_package_closure(ctx, gfns):
                    % ("built from Option::%s %s" % ("/".join(made), "depending on " + ",".join(cond) if cond else "") if made else "not taken from the source node"),
                    site="%s in %s" % (t.span, f.id))
     ctx.ob("R06.10", "count", n >= 1, "alias node constructions checked: %d" % n, nontrivial=False)
+
+
+def check_unregister_complete(ctx):
+    """R06.6 `unregister-complete`: every normal return of unregister_package passes through the removal of the package from
+    `package_map` (and the slot bookkeeping that follows): an early return for "no nodes to clean up" leaves the package
+    registered — it stays in packages(), its name cannot be registered again, the old id stays valid."""
+    db, prov = ctx.db, ctx.prov
+    f = db.fn(GRAPH + "CompositionGraph::unregister_package")
+    ctx.touch(f)
+    cfg = CFG(f)
+    rm = [t for t in f.calls() if (t.path or "").rsplit("::", 1)[-1] in ("remove", "swap_remove", "shift_remove") and narrow(prov, f, t.args[0]).has_field("package_map", "graph::CompositionGraph")]
+    rets = [b.idx for b in f.blocks if b.term.k == "return" and not b.cleanup]
+    ok = bool(rm) and bool(rets) and all(cfg.must_pass([t.bb for t in rm], src=0, dsts={r}) for r in rets)
+    ctx.ob("R06.6", "unregister-complete", ok, "every return of unregister_package removes the package from package_map" if ok else
+           "unregister_package can return without removing the package from package_map (early return): the package stays registered under its name and its id stays valid", site=f.span)
 
 
 def is_payload_predicate(ctx, g):
